@@ -142,6 +142,16 @@ def generate(chk, P, wd):
         cases.append({"family": "pairs-recursive", "g": g, "L": pick_L(g, P["Lpairs"])})
     for x in gen["random"]:
         cases.append({"family": "random" if x["reach"] else "random-unreachable", "g": x["g"], "L": pick_L(x["g"], P["Lcap"])})
+    # histories: the same grammar was printed and parsed before in the same interpreter and the earlier result was
+    # changed in place (every 4th case) or handed to ISLaSolver(text, start_symbol=...) (a few)
+    again = []
+    for k, c in enumerate(cases):
+        if c["family"] in ("random", "pairs-recursive", "single-terminal") or c["family"].startswith("pinned"):
+            if k % 4 == 0:
+                again.append(dict(c, family=c["family"] + "+mutated-before", history="mutate"))
+            elif k % 41 == 1 and len(c["g"]) > 1:
+                again.append(dict(c, family=c["family"] + "+solver-before", history="solver"))
+    cases += again
     for k, c in enumerate(cases):
         c["idx"] = k + 1
     return cases
@@ -194,7 +204,7 @@ def run(chk, cases_in=None):
                 if verdict != "OK":
                     sig = {"clause": verdict, "exc": c["exc"].split(":")[0], "stage": c["stage"], "has_lt": has_lt,
                            "all_reachable": reach}
-                    chk.mismatch(sig, {"family": c["family"], "grammar": pj.json_to_grammar(c["g"]), "g": c["g"], "L": c["L"],
+                    chk.mismatch(sig, {"family": c["family"], "grammar": pj.json_to_grammar(c["g"]), "g": c["g"], "L": c["L"], "history": c.get("history", ""),
                                        "bnf": c["bnf"], "exception": c["exc"], "stage": c["stage"],
                                        "result": pj.json_to_grammar(c["g2"]) if c["res"] == "ok" else None,
                                        "nonterminal": nt, "witness": pj.text(wit), "witness_codepoints": wit})
@@ -237,6 +247,6 @@ def replay(path):
     with open(path) as f:
         rec = json.load(f)
     chk = Check("C11", "quick")
-    cases = [{"idx": k + 1, "family": c["family"], "g": c["g"], "L": c["L"]} for k, c in enumerate(rec["cases"])]
+    cases = [{"idx": k + 1, "family": c["family"], "g": c["g"], "L": c["L"], "history": c.get("history", "")} for k, c in enumerate(rec["cases"])]
     run(chk, cases_in=cases)
     return chk.finish()
